@@ -39,6 +39,14 @@ MIN_TIMES = [None, 0.0, 1e-9, 1.0, 3.5, 1e6, -1.0, 0.25]
 
 # ------------------------------------------------------------------ inputs
 def base_ts(rng):
+    for _ in range(30):
+        ts = _base_ts(rng)
+        if ts.num_mutations <= 150 and ts.num_nodes <= 80:
+            return ts
+    return ts
+
+
+def _base_ts(rng):
     import msprime
     n = rng.randint(2, 8)
     L = rng.choice([5, 20, 50, 200])
@@ -53,10 +61,10 @@ def base_ts(rng):
     model = None
     if rng.random() < 0.25:
         model = msprime.BetaCoalescent(alpha=1.1 + rng.random() * 0.8)
-    ts = msprime.sim_ancestry(samples=samples, sequence_length=L, recombination_rate=rng.choice([0, 0.02, 0.1, 0.5]),
+    ts = msprime.sim_ancestry(samples=samples, sequence_length=L, recombination_rate=rng.choice([0, 0.02, 0.1]),
                               random_seed=seed, population_size=1, model=model)
     # finite sites: several mutations per site, back mutations
-    ts = msprime.sim_mutations(ts, rate=rng.choice([0.02, 0.1, 0.5, 2.0]), random_seed=seed,
+    ts = msprime.sim_mutations(ts, rate=rng.choice([0.3, 1.0, 3.0, 8.0]) / L, random_seed=seed,
                                model=msprime.BinaryMutationModel() if rng.random() < 0.5 else None)
     return ts
 
@@ -434,9 +442,9 @@ def argument_checks(ctx):
 
 def run(ctx, model_ok=True):
     argument_checks(ctx)
-    run_sites_time(ctx, ctx.n(360, 3000), model_ok)
-    run_unconstrained(ctx, ctx.n(60, 400), model_ok)
-    run_sampledata(ctx, ctx.n(25, 200), model_ok)
+    run_sites_time(ctx, ctx.n(240, 3000), model_ok)
+    run_unconstrained(ctx, ctx.n(40, 400), model_ok)
+    run_sampledata(ctx, ctx.n(15, 200), model_ok)
 
 
 def search(ctx):
